@@ -740,3 +740,44 @@ class BrokerContext(_Valuation):
                 h[m.oid]["dom"](k) == dom(k),
                 z3.Implies(dom(k), z3.And(z3.Not(h[m.oid]["get"](k).nan), h[m.oid]["get"](k).v == get(k).v))))(m, get, dom)))
         return out + self.nlv().post_state(self.bctx(c))
+
+
+# =========================================================================== Broker.__init__ (the invariants are established)
+@register
+class BrokerInit(Contract):
+    """C01/C05: a new account holds exactly the deposit as cash, no position, no margin, no mark: WF(B) and the ledger identity
+    (equity = deposit once cash is quoted at 1) are established by construction"""
+    relpath, qual = REL, "Broker.__init__"
+    props = ("C01", "C05")
+
+    def pre_state(self, I):
+        return {"self": I.new_rec("Broker"), "exchange": mk_exchange(I), "base_currency": KeyV(I.key("cash")), "deposit": I.fl("deposit"),
+                "fees": mk_fees(I), "epsilon": I.fl("eps")}
+
+    def requires(self, c):
+        k = c.base_currency.t
+        return [Cl("base_currency_is_cash", z3.And(is_cash(k), static_key(k), mr(k) == 0, cr(k) == 1, mult(k) == 1)),
+                PW("one_cash_key", lambda x: z3.Implies(is_cash(x), x == k))]
+
+    def modifies(self, c):
+        return [("obj", c.self)]
+
+    def ensures(self, c):
+        I = c.I
+        h = c.heap()
+        f = h[c.self.oid]
+        need = ("_holdings_quantity", "_holdings_margins", "_last_marking_to_market_price", "exchange", "base_currency", "fees", "_epsilon",
+                "_last_accrual", "track_record")
+        if any(n not in f for n in need):
+            return [Cl("all_fields_set", FALSE)]
+        v = SymBrokerView(I, c.self, h)
+        dep = lift_fl(c.deposit).v
+        return [
+            Cl("deposit_is_cash", z3.And(v.qty(v.cash) == dep, v.in_qty(v.cash))),
+            PW("no_positions_margins_or_marks", lambda k: z3.And(z3.Implies(k != v.cash, z3.And(v.qty(k) == 0, z3.Not(v.in_qty(k)))),
+                                                             v.margin(k) == 0, z3.Not(v.in_margins(k)), z3.Not(v.has_last(k)))),
+            PW("wf_established", lambda k: wf_at(v, k)),
+            Cl("clock_not_started", z3.BoolVal(f["_last_accrual"] is None)),
+            Cl("wiring", z3.And(z3.BoolVal(f["exchange"] is c.exchange or getattr(f["exchange"], "oid", None) == c.exchange.oid),
+                                f["base_currency"].t == c.base_currency.t, lift_fl(f["_epsilon"]).v == lift_fl(c.epsilon).v)),
+        ]
